@@ -22,17 +22,19 @@ tvars == <<st, tid>>
 SeqSet(q) == {q[k] : k \in 1 .. Len(q)}
 ToOpt(j) == [tr |-> j.tr, bg |-> j.bg, zones |-> SeqSet(j.zones), res |-> j.res]
 ToSrc(j) == [id |-> j.id, kind |-> j.kind, op |-> j.op, cov |-> j.cov, clip |-> j.clip, url |-> j.url, rng |-> j.rng,
-             col |-> j.col]
+             col |-> j.col, ssrs |-> j.ssrs]
 ToLayer(j) == [name |-> j.name, srcs |-> [k \in 1 .. Len(j.srcs) |-> ToSrc(j.srcs[k])], rng |-> j.rng]
 StackOf(e) == [k \in 1 .. Len(e.stack) |-> ToLayer(e.stack[k])]
 ToLog(u) == [k \in 1 .. Len(u) |-> [ls |-> u[k].ls, tr |-> u[k].tr, sub |-> u[k].sub]]
 
 \* the observation is the terminal state s of the model
 Match(obs, s) ==
-  /\ obs.status = 200 /\ obs.flat
-  /\ ToLog(obs.ups) = s.ups
-  /\ DOMAIN obs.px = Regions(s.o)
-  /\ \A r \in Regions(s.o) : Close(obs.px[r], s.out[r])
+  /\ obs.status = s.status
+  /\ \/ s.status = 500
+     \/ /\ obs.flat
+        /\ ToLog(obs.ups) = s.ups
+        /\ DOMAIN obs.px = Regions(s.o)
+        /\ \A r \in Regions(s.o) : Close(obs.px[r], s.out[r])
 
 \* the property on the observation alone
 ObsOK(obs, stack, o) ==
